@@ -47,6 +47,12 @@ pub struct ScenarioOpts {
     /// [400, 20_400): runs out inside callees / dependent charges. 0 = never (no extra
     /// random draw, generated scenarios unchanged)
     pub mid_gas: u32,
+    /// > 0: "chain" shape for deep call nesting: exactly `chain` listed contracts, and
+    /// contract k (k >= 1) calls contract k-1 right after its prelude. 0 = off.
+    pub chain: usize,
+    /// per-mille probability that 1..7 trailing bytes are appended to a generated
+    /// contract's code (length not a multiple of 8: exercises the code padding). 0 = off.
+    pub ragged_code: u32,
 }
 
 impl Default for ScenarioOpts {
@@ -62,6 +68,8 @@ impl Default for ScenarioOpts {
             contract_snippets: 10,
             tight_gas: 120,
             mid_gas: 0,
+            chain: 0,
+            ragged_code: 0,
         }
     }
 }
@@ -172,7 +180,7 @@ pub fn build(rng: &mut Rng, o: &ScenarioOpts) -> Scenario {
     }
     // contracts, generated bottom-up so that later ones can call earlier ones (plus
     // themselves: recursion is bounded by gas)
-    let nc = rng.below(o.max_contracts as u64 + 1) as usize;
+    let nc = if o.chain > 0 { o.chain } else { rng.below(o.max_contracts as u64 + 1) as usize };
     let mut ids: Vec<ContractId> = vec![];
     // a foreign contract that exists but will not be listed as an input
     let mut foreign: Vec<ContractId> = vec![ContractId::new(rng.arr())];
@@ -188,7 +196,13 @@ pub fn build(rng: &mut Rng, o: &ScenarioOpts) -> Scenario {
             n_witnesses: 1,
         };
         let n = 2 + rng.below(o.contract_snippets as u64) as usize;
-        let p = prog::generate(rng, &env, Mode::Contract, o.contract_weights.clone(), n);
+        let first_call = if o.chain > 0 && k >= 1 && k < nc { ids.last() } else { None };
+        let p = prog::generate_chained(rng, &env, Mode::Contract, o.contract_weights.clone(), n, first_call);
+        let mut p = p;
+        if o.ragged_code > 0 && rng.below(1000) < o.ragged_code as u64 {
+            let extra = 1 + rng.usize_below(7);
+            p.bytes.extend(rng.bytes(extra));
+        }
         let slots: Vec<StorageSlot> = (0..rng.below(3))
             .map(|i| {
                 let mut k = [0u8; 32];
@@ -278,6 +292,9 @@ pub fn build(rng: &mut Rng, o: &ScenarioOpts) -> Scenario {
         coin_outputs,
         predicates: vec![],
     };
-    let info = json!({"contracts": ids.len(), "gas_limit": gas_limit, "schedule": o.schedule, "gas_price": o.gas_price});
+    let mut info = json!({"contracts": ids.len(), "gas_limit": gas_limit, "schedule": o.schedule, "gas_price": o.gas_price});
+    if o.chain > 0 {
+        info["chain"] = json!(o.chain);
+    }
     Scenario { world, spec, env, info }
 }
